@@ -407,7 +407,8 @@ def one_random(col, rng):
 
         def ref(t):
             if levels == 0:
-                return t
+                # zero-fold chain.from_iterable of glom(t, spec): the value the spec yields, as it is
+                return unwrap(spelling, t)
             it = unwrap(spelling, t)
             for _ in range(levels - 1):
                 it = itertools.chain.from_iterable(it)
@@ -423,7 +424,7 @@ def one_random(col, rng):
             want = call(ref, twin)
             col.count('glom_evaluations')
             if levels == 0:
-                ok = got.ok and got.value is target
+                ok = got.ok and got.value is unwrap(spelling, target)
             else:
                 ok = outcome_equal(got, want, lazy=(ifn == 'lazy'))
             if not ok:
